@@ -197,7 +197,12 @@ fn mutate_text(r: &mut Rng, s: &str) -> String {
 
 /// One `dec` op.
 pub fn dec_case(ctx: &Ctx, r: &mut Rng, seeds: &[(&'static str, Value)]) -> String {
-    match r.below(10) {
+    let choice = match r.below(10) {
+        // signing generates a one-off RSA key: keep these at about 3 %
+        8 if !r.chance(1, 3) => 0,
+        c => c,
+    };
+    match choice {
         // JSON: structured mutation of a valid document
         0..=4 => {
             let (kind, v) = r.pick(seeds).clone();
@@ -209,7 +214,7 @@ pub fn dec_case(ctx: &Ctx, r: &mut Rng, seeds: &[(&'static str, Value)]) -> Stri
             if r.chance(1, 6) {
                 mutate_bytes(r, &mut bytes);
             }
-            format!("dec {kind} {}", hex::encode(bytes))
+            format!("dec {kind} x{}", hex::encode(bytes))
         }
         // text notations
         5 => {
@@ -234,7 +239,7 @@ pub fn dec_case(ctx: &Ctx, r: &mut Rng, seeds: &[(&'static str, Value)]) -> Stri
                     s.push_str(ps(r, ODD_STRINGS));
                 }
             }
-            format!("dec {kind} {}", hex::encode(s.as_bytes()))
+            format!("dec {kind} x{}", hex::encode(s.as_bytes()))
         }
         // RISwhois dump text
         6 => {
@@ -247,7 +252,7 @@ pub fn dec_case(ctx: &Ctx, r: &mut Rng, seeds: &[(&'static str, Value)]) -> Stri
                     ps(r, ODD_NUMBERS)
                 ));
             }
-            format!("dec riswhois {}", hex::encode(s.as_bytes()))
+            format!("dec riswhois x{}", hex::encode(s.as_bytes()))
         }
         // CMS: mutated third-party samples (signature no longer valid: exercises the DER layer)
         7 => {
@@ -256,7 +261,7 @@ pub fn dec_case(ctx: &Ctx, r: &mut Rng, seeds: &[(&'static str, Value)]) -> Stri
             if r.chance(9, 10) {
                 mutate_bytes(r, &mut b);
             }
-            format!("dec {kind} {}", hex::encode(b))
+            format!("dec {kind} x{}", hex::encode(b))
         }
         // CMS signed by the registered identity around hostile XML (a malicious but
         // authenticated child / publisher)
@@ -273,14 +278,14 @@ pub fn dec_case(ctx: &Ctx, r: &mut Rng, seeds: &[(&'static str, Value)]) -> Stri
             for _ in 0..r.range(0, 2) {
                 x = mutate_text(r, &x);
             }
-            format!("dec {kind} {}", hex::encode(signed_cms(ctx, x.as_bytes())))
+            format!("dec {kind} x{}", hex::encode(signed_cms(ctx, x.as_bytes())))
         }
         // random bytes
         _ => {
             let kind = ps(r, &["rfc6492", "rfc8181", "roa-updates", "aspa-updates", "import", "riswhois", "bgpsec-updates"]);
             let n = r.range(0, 64) as usize;
             let b: Vec<u8> = (0..n).map(|_| r.below(256) as u8).collect();
-            format!("dec {kind} {}", hex::encode(b))
+            format!("dec {kind} x{}", hex::encode(b))
         }
     }
 }
